@@ -579,6 +579,182 @@ fn s12_exec() {
     pub fn main_g3(which: &[String]) { for w in which { match w.as_str() { "s5" => s5(), "s18" => s18(), "s6" => s6(), "s22" => s22(), "s16" => s16(), "s16b" => s16b(), "s12" => s12_exec(), _ => {} } } }
 }
 
+// ---- nondeterminism triage (first-error selection by HashMap iteration order); run each subcommand in N fresh processes ----
+mod nd {
+    use super::*;
+    use air_interpreter_cid::{value_to_json_cid, CID};
+    use air_interpreter_data::*;
+    use air_interpreter_signatures::{KeyFormat, KeyPair, PeerCidTracker, PublicKey, SignatureStore};
+    use polyplets::SecurityTetraplet;
+    use std::rc::Rc;
+
+    const N: u8 = 8;
+
+    fn envelope(trace: Vec<ExecutedState>, cid_info: CidInfo, signatures: SignatureStore) -> Vec<u8> {
+        InterpreterDataEnvelope::from_execution_result(ExecutionTrace::from(trace), cid_info, signatures, 0,
+            semver::Version::parse("0.64.1").unwrap()).serialize().unwrap()
+    }
+    fn raw_value(raw: &str) -> RawValue { serde_json::from_value(serde_json::Value::String(raw.to_string())).unwrap() }
+    fn fnv(s: &str) -> u64 { s.bytes().fold(0xcbf29ce484222325u64, |h, b| (h ^ b as u64).wrapping_mul(0x100000001b3)) }
+    /// one line per process run: ret_code + complete message (newlines escaped) so that `sort | uniq -c` compares whole messages
+    fn show(id: &str, o: &InterpreterOutcome) {
+        println!("{id}: ret_code={} fnv={:016x} msg={}", o.ret_code, fnv(&o.error_message), o.error_message.replace('\n', "\\n"));
+    }
+    fn victim_run(prev: Vec<u8>, data: Vec<u8>, air: &str) -> InterpreterOutcome {
+        let mut v = peer(5); let id = v.id.clone();
+        v.prev = prev;
+        run(&mut v, &id, air, data, HashMap::new())
+    }
+
+    /// A (second loop of verify_canon_result_store): 8 well-formed canon results (stored under their right CIDs), each referring to
+    /// a different tetraplet CID that is absent from the tetraplet store.
+    pub fn a_result() {
+        let mut results = CidTracker::<CanonResultCidAggregate>::new();
+        for i in 0..N {
+            let tetraplet = value_to_json_cid(&SecurityTetraplet::new(format!("p{i}"), "", "", "")).unwrap();
+            results.track_value(CanonResultCidAggregate { tetraplet, values: vec![] }).unwrap();
+        }
+        let cid_info = CidInfo { canon_result_store: results.into(), ..Default::default() };
+        show("ND-A canon_result_store", &victim_run(vec![], envelope(vec![], cid_info, SignatureStore::new()), "(null)"));
+    }
+
+    /// A (first inner loop): 8 canon results, tetraplets present, each referring to a different absent canon element CID.
+    pub fn a_result_values() {
+        let mut tetraplets = CidTracker::<SecurityTetraplet>::new();
+        let mut results = CidTracker::<CanonResultCidAggregate>::new();
+        for i in 0..N {
+            let tetraplet = tetraplets.track_value(SecurityTetraplet::new(format!("p{i}"), "", "", "")).unwrap();
+            let missing: CID<CanonCidAggregate> = value_to_json_cid(&format!("missing element {i}")).map(|c: CID<String>| CID::new(c.get_inner())).unwrap();
+            results.track_value(CanonResultCidAggregate { tetraplet, values: vec![missing] }).unwrap();
+        }
+        let cid_info = CidInfo { tetraplet_store: tetraplets.into(), canon_result_store: results.into(), ..Default::default() };
+        show("ND-A canon_result_store.values", &victim_run(vec![], envelope(vec![], cid_info, SignatureStore::new()), "(null)"));
+    }
+
+    /// A (third loop): 8 well-formed canon elements, each referring to a different absent tetraplet CID (value present).
+    pub fn a_element() {
+        let mut values = CidTracker::<RawValue>::new();
+        let value = values.track_raw_value(raw_value("1"));
+        let mut elements = CidTracker::<CanonCidAggregate>::new();
+        for i in 0..N {
+            let tetraplet = value_to_json_cid(&SecurityTetraplet::new(format!("p{i}"), "", "", "")).unwrap();
+            elements.track_value(CanonCidAggregate { value: value.clone(), tetraplet, provenance: Provenance::Literal }).unwrap();
+        }
+        let cid_info = CidInfo { value_store: values.into(), canon_element_store: elements.into(), ..Default::default() };
+        show("ND-A canon_element_store", &victim_run(vec![], envelope(vec![], cid_info, SignatureStore::new()), "(null)"));
+    }
+
+    /// B (verify_raw_value): 8 raw values, value i stored under the (valid) CID of value i+1.
+    pub fn b_raw() {
+        let cid = |i: u8| -> CID<RawValue> { CidTracker::<RawValue>::new().track_raw_value(raw_value(&format!("\"v{}\"", i % N))) };
+        let map: serde_json::Map<String, serde_json::Value> =
+            (0..N).map(|i| (cid(i + 1).get_inner().to_string(), serde_json::Value::String(format!("\"v{i}\"")))).collect();
+        let value_store: CidStore<RawValue> = serde_json::from_value(serde_json::Value::Object(map)).unwrap();
+        assert_eq!(value_store.len(), N as usize);
+        let cid_info = CidInfo { value_store, ..Default::default() };
+        show("ND-B value_store", &victim_run(vec![], envelope(vec![], cid_info, SignatureStore::new()), "(null)"));
+    }
+
+    /// B (verify): 8 tetraplets, tetraplet i stored under the (valid) CID of tetraplet i+1.
+    pub fn b_generic() {
+        let t = |i: u8| SecurityTetraplet::new(format!("p{}", i % N), "s", "f", "");
+        let map: serde_json::Map<String, serde_json::Value> =
+            (0..N).map(|i| (value_to_json_cid(&t(i + 1)).unwrap().get_inner().to_string(), serde_json::to_value(t(i)).unwrap())).collect();
+        let tetraplet_store: CidStore<SecurityTetraplet> = serde_json::from_value(serde_json::Value::Object(map)).unwrap();
+        assert_eq!(tetraplet_store.len(), N as usize);
+        let cid_info = CidInfo { tetraplet_store, ..Default::default() };
+        show("ND-B tetraplet_store", &victim_run(vec![], envelope(vec![], cid_info, SignatureStore::new()), "(null)"));
+    }
+
+    fn keypair(seed: u8) -> KeyPair { KeyPair::from_secret_key(vec![seed; 32], KeyFormat::Ed25519).unwrap() }
+
+    /// 8 peers (seeds 10..18); peer i has one executed `(call peer_i ("s" "f") [] x)` whose raw result is `"<tag>-<i>"`.
+    /// Returns a consistent CidInfo, the trace and the signature store where each peer signed `signed(i)` with salt "particle".
+    fn eight_peers(tag: &str, sign_trace_cid: bool) -> (CidInfo, Vec<ExecutedState>, SignatureStore) {
+        let mut values = CidTracker::<RawValue>::new();
+        let mut tetraplets = CidTracker::<SecurityTetraplet>::new();
+        let mut results = CidTracker::<ServiceResultCidAggregate>::new();
+        let mut trace = vec![];
+        let mut signatures = SignatureStore::new();
+        let argument_hash: Rc<str> = value_to_json_cid(&Vec::<serde_json::Value>::new()).unwrap().get_inner();
+        for i in 0..N {
+            let p = peer(10 + i);
+            let value_cid = values.track_raw_value(raw_value(&format!("\"{tag}-{i}\"")));
+            let tetraplet_cid = tetraplets.track_value(SecurityTetraplet::new(&p.id, "s", "f", "")).unwrap();
+            let agg = results.track_value(ServiceResultCidAggregate { value_cid, argument_hash: argument_hash.clone(), tetraplet_cid }).unwrap();
+            let kp = keypair(10 + i);
+            let mut tracker = PeerCidTracker::new(p.id.clone());
+            if sign_trace_cid { tracker.register(&p.id, &agg); }
+            signatures.put(kp.public(), tracker.gen_signature("particle", &kp).unwrap());
+            trace.push(ExecutedState::Call(CallResult::Executed(ValueRef::Scalar(agg))));
+        }
+        let cid_info = CidInfo { value_store: values.into(), tetraplet_store: tetraplets.into(), service_result_store: results.into(), ..Default::default() };
+        (cid_info, trace, signatures)
+    }
+
+    /// C (DataVerifier::verify): 8 peers each produced one call result but signed the empty CID set.
+    pub fn c_verify() {
+        let (cid_info, trace, signatures) = eight_peers("cur", false);
+        show("ND-C SignatureMismatch", &victim_run(vec![], envelope(trace, cid_info, signatures), "(null)"));
+    }
+
+    /// D (DataVerifier::merge): prev data and current data are each consistent and correctly signed, but for every one of the
+    /// 8 peers the CID multiset of prev ({prev-i}) is not a subset of the one of current ({cur-i}) (equal sizes).
+    pub fn d_merge() {
+        let (pc, pt, ps) = eight_peers("prev", true);
+        let (cc, ct, cs) = eight_peers("cur", true);
+        show("ND-D MergeMismatch", &victim_run(envelope(pt, pc, ps), envelope(ct, cc, cs), "(null)"));
+    }
+
+    /// E (DataVerifier::new, key validation loop): 8 well-formed secp256k1 public keys (algorithm not whitelisted).
+    pub fn e_keys() {
+        let mut signatures = SignatureStore::new();
+        for i in 0..N {
+            let kp = fluence_keypair::KeyPair::from_secret_key(vec![30 + i; 32], fluence_keypair::KeyFormat::Secp256k1).unwrap();
+            signatures.put(PublicKey::new(kp.public()), kp.sign(b"x").unwrap().into());
+        }
+        show("ND-E MalformedKey", &victim_run(vec![], envelope(vec![], CidInfo::default(), signatures), "(null)"));
+    }
+
+    /// G: parser validator; `kind` selects the script shape.
+    pub fn g(kind: &str) {
+        let names = ["aaa", "bbb", "ccc", "ddd", "eee", "fff", "ggg", "hhh"];
+        let script = match kind {
+            // 8 undefined variables, every instruction (= label span) on the same line, all spans different
+            "distinct" => names.iter().fold("(null)".to_string(), |acc, n| format!(r#"(seq {acc} (call "p" ("s" "f") [{n}]))"#)),
+            // 8 undefined variables inside ONE instruction: 8 labels with the same span
+            "samespan" => format!(r#"(call "p" ("s" "f") [{}])"#, names.join(" ")),
+            // 8 undefined variables, each instruction spans two lines: 8 multi-line labels
+            "multiline" => names.iter().fold("(null)".to_string(), |acc, n| format!("(seq {acc} (call \"p\" (\"s\" \"f\")\n [{n}]))")),
+            // one line, distinct spans, all kinds: undefined variables, undefined iterables, multiple next, new on iterators
+            "kinds" => concat!(
+                r#"(seq (seq (seq (call "p" ("s" "f") [u1]) (call "p" ("s" "f") [u2])) (seq (call "p" ("s" "f") [u3]) (ap u4 $s)))"#,
+                r#" (seq (seq (seq (next i1) (next i2)) (seq (next i3) (next i4)))"#,
+                r#" (seq (seq (fold $s m1 (seq (next m1) (next m1))) (fold $s m2 (seq (next m2) (next m2)))) (seq (fold $s m3 (seq (next m3) (next m3)))"#,
+                r#" (seq (fold $s n1 (new n1 (next n1))) (seq (fold $s n2 (new n2 (next n2))) (fold $s n3 (new n3 (next n3)))))))))"#).to_string(),
+            _ => panic!("kind"),
+        };
+        show(&format!("ND-G {kind}"), &victim_run(vec![], vec![], &script));
+    }
+
+    pub fn main_nd(which: &[String]) {
+        match which.first().map(|s| s.as_str()) {
+            Some("nd-a-result") => a_result(), Some("nd-a-values") => a_result_values(), Some("nd-a-element") => a_element(),
+            Some("nd-b-raw") => b_raw(), Some("nd-b-generic") => b_generic(),
+            Some("nd-c") => c_verify(), Some("nd-d") => d_merge(), Some("nd-e") => e_keys(),
+            Some("nd-g") => g(&which[1]),
+            Some("nd-x-emptykey") => {
+                let mut signatures = SignatureStore::new();
+                let kp = keypair(1);
+                let pk: PublicKey = serde_json::from_value(serde_json::json!("")).unwrap();
+                signatures.put(pk, kp.sign(b"x").unwrap());
+                show("ND-X empty key", &victim_run(vec![], envelope(vec![], CidInfo::default(), signatures), "(null)"));
+            }
+            _ => {}
+        }
+    }
+}
+
 // ---- deep nesting (C01 recursion findings): run each in its own process, a stack overflow aborts ----
 fn nested(n: usize) -> String {
     let mut s = String::with_capacity(n * 12);
@@ -652,6 +828,7 @@ fn c20() {
 
 fn main() {
     let which: Vec<String> = std::env::args().skip(1).collect();
+    if which.first().map(|w| w.starts_with("nd-")).unwrap_or(false) { nd::main_nd(&which); return; }
     if which.iter().any(|w| w == "c20") { c20(); }
     if which.iter().any(|w| w == "c23") { c23(); }
     if which.first().map(|w| w == "deep").unwrap_or(false) { deep(&which[1..]); return; }
